@@ -472,35 +472,40 @@ func c19Corruptions(r *Run, path string) int {
 		where string
 		apply func(doc map[string]any, bad any)
 		str   bool
+		pair  bool // the whole two-number list of an extension value is replaced
 	}
 	p := func(d map[string]any) map[string]any { return d["proof"].(map[string]any) }
 	fp := func(d map[string]any) map[string]any { return p(d)["opening_proof"].(map[string]any) }
 	q0 := func(d map[string]any) map[string]any { return fp(d)["query_round_proofs"].([]any)[0].(map[string]any) }
 	edits := []edit{
-		{"public_inputs[0]", func(d map[string]any, bad any) { d["public_inputs"].([]any)[0] = bad }, false},
+		{"public_inputs[0]", func(d map[string]any, bad any) { d["public_inputs"].([]any)[0] = bad }, false, false},
 		{"openings.wires[0][1]", func(d map[string]any, bad any) {
 			p(d)["openings"].(map[string]any)["wires"].([]any)[0].([]any)[1] = bad
-		}, false},
-		{"pow_witness", func(d map[string]any, bad any) { fp(d)["pow_witness"] = bad }, false},
+		}, false, false},
+		{"pow_witness", func(d map[string]any, bad any) { fp(d)["pow_witness"] = bad }, false, false},
 		{"final_poly.coeffs[0][0]", func(d map[string]any, bad any) {
 			fp(d)["final_poly"].(map[string]any)["coeffs"].([]any)[0].([]any)[0] = bad
-		}, false},
+		}, false, false},
 		{"evals_proofs[0] leaf[0]", func(d map[string]any, bad any) {
 			q0(d)["initial_trees_proof"].(map[string]any)["evals_proofs"].([]any)[0].([]any)[0].([]any)[0] = bad
-		}, false},
+		}, false, false},
 		{"steps[0].evals[0][0]", func(d map[string]any, bad any) {
 			q0(d)["steps"].([]any)[0].(map[string]any)["evals"].([]any)[0].([]any)[0] = bad
-		}, false},
-		{"wires_cap[0]", func(d map[string]any, bad any) { p(d)["wires_cap"].([]any)[0] = bad }, true},
+		}, false, false},
+		{"openings.wires[1] (the pair)", func(d map[string]any, bad any) { p(d)["openings"].(map[string]any)["wires"].([]any)[1] = bad }, false, true},
+		{"openings.plonk_zs_next[1] (the pair)", func(d map[string]any, bad any) { p(d)["openings"].(map[string]any)["plonk_zs_next"].([]any)[1] = bad }, false, true},
+		{"final_poly.coeffs[1] (the pair)", func(d map[string]any, bad any) { fp(d)["final_poly"].(map[string]any)["coeffs"].([]any)[1] = bad }, false, true},
+		{"steps[0].evals[1] (the pair)", func(d map[string]any, bad any) { q0(d)["steps"].([]any)[0].(map[string]any)["evals"].([]any)[1] = bad }, false, true},
+		{"wires_cap[0]", func(d map[string]any, bad any) { p(d)["wires_cap"].([]any)[0] = bad }, true, false},
 		{"evals_proofs[0] siblings[0]", func(d map[string]any, bad any) {
 			q0(d)["initial_trees_proof"].(map[string]any)["evals_proofs"].([]any)[0].([]any)[1].(map[string]any)["siblings"].([]any)[0] = bad
-		}, true},
+		}, true, false},
 		{"steps[0] siblings[0]", func(d map[string]any, bad any) {
 			q0(d)["steps"].([]any)[0].(map[string]any)["merkle_proof"].(map[string]any)["siblings"].([]any)[0] = bad
-		}, true},
+		}, true, false},
 		{"commit_phase_merkle_caps[0][0]", func(d map[string]any, bad any) {
 			fp(d)["commit_phase_merkle_caps"].([]any)[0].([]any)[0] = bad
-		}, true},
+		}, true, false},
 	}
 	numBad := []struct {
 		n string
@@ -510,11 +515,18 @@ func c19Corruptions(r *Run, path string) int {
 		n string
 		v any
 	}{{"non-decimal string", "0x1f"}, {"non-numeric string", "hello"}, {"empty string", ""}, {"fraction string", "1.5"}, {"number for a string", json.Number("17")}, {"list for a string", []any{"1"}}, {"underscored numeral", "1_000"}, {"leading space", " 12"}}
+	pairBad := []struct {
+		n string
+		v any
+	}{{"pair cut to one number", []any{json.Number("5")}}, {"empty list for a pair", []any{}}}
 	ok := 0
 	for _, e := range edits {
 		bads := numBad
 		if e.str {
 			bads = strBad
+		}
+		if e.pair {
+			bads = pairBad
 		}
 		for _, bad := range bads {
 			var doc map[string]any
